@@ -21,6 +21,7 @@ class World:
         from bs4 import BeautifulSoup
         from bs4.element import NavigableString, Comment, Tag
         self.kinds = kinds
+        self.call_forms = {}
         self.twin = twin_rng is not None or twin_choices is not None
         self.twin_choices = list(twin_choices) if twin_choices is not None else ([] if self.twin else None)
 
@@ -114,7 +115,8 @@ class World:
 
     def apply(self, op: str) -> str:
         """Run one op on the real objects. Returns 'ok' or 'err:<kind>'."""
-        from bs4.element import NavigableString, Comment
+        from bs4.element import NavigableString, Comment, Tag
+        import zlib
         f = op.split(":")
         k = f[0]
         args = lambda s: [self.arg(a) for a in s.split(",")] if s != "-" else []
@@ -127,9 +129,26 @@ class World:
                 elif k == "in":
                     self.objs[f[1]].insert(int(f[2]), *args(f[3]))
                 elif k == "et":
-                    self.objs[f[1]].extend(self.objs[f[2]])
+                    # extend() takes a Tag or any iterable: the same documented effect whichever way the source's children are
+                    # handed over (the form is a function of the op text, so a replay makes the same call)
+                    src = self.objs[f[2]]
+                    form = zlib.crc32(op.encode()) % 6 if isinstance(src, Tag) else 0
+                    self.call_forms["et%d" % form] = self.call_forms.get("et%d" % form, 0) + 1
+                    if form <= 1:
+                        self.objs[f[1]].extend(src)
+                    elif form == 2:
+                        self.objs[f[1]].extend(src.children)
+                    elif form == 3:
+                        self.objs[f[1]].extend(iter(src))
+                    elif form == 4:
+                        self.objs[f[1]].extend(c for c in src.contents)
+                    else:
+                        self.objs[f[1]].extend(tuple(src.contents))
                 elif k == "el":
-                    self.objs[f[1]].extend(args(f[2]))
+                    a = args(f[2])
+                    form = zlib.crc32(op.encode()) % 4
+                    self.call_forms["el%d" % form] = self.call_forms.get("el%d" % form, 0) + 1
+                    self.objs[f[1]].extend(a if form == 0 else tuple(a) if form == 1 else iter(a) if form == 2 else (x for x in a))
                 elif k == "ib":
                     self.objs[f[1]].insert_before(*args(f[2]))
                 elif k == "ia":
@@ -551,6 +570,7 @@ def make_world(rng, parsed: bool):
     from bs4.element import Tag
     soup = BeautifulSoup(write(0), "html.parser")
     w = World.__new__(World)
+    w.call_forms = {}
     w.kinds = kinds
     w.base = BeautifulSoup("", "html.parser")
     w.objs, w.lab, w.keep, w.next_plain = {}, {}, [], 1000
